@@ -249,7 +249,15 @@ impl<
                     return Ok(None);
                 }
 
-                if item.expiration.is_zero() || !item.expiration.is_expired() {
+                if item.expiration.is_zero() {
+                    return Ok(None);
+                }
+
+                if !item.expiration.is_expired() {
+                    // Not expired after all (e.g. the wall clock was stepped back after the
+                    // sweep read it). The sweep has already taken the key off the expiry
+                    // index: list it again, or the entry would never be reclaimed.
+                    self.em.try_insert(*key, item.conflict, item.expiration)?;
                     return Ok(None);
                 }
 
